@@ -41,20 +41,29 @@ def recKey (multi : Bool) (id : String) : Key := (if multi then "M:" else "S:") 
 /-- the given-out counter of a channel: the code upper-cases the channel name -/
 def givenKey (ch : String) : Key := "G:" ++ ch.toUpper
 
-def encAssets (as : List (String × Int)) : String :=
-  ",".intercalate (as.map (fun a => a.1 ++ "=" ++ toString a.2))
+/-- split at a character (the toolchain's `String.split`, whose inverse law w.r.t. `intercalate` is a
+    core lemma — `Lemmas/Codec.lean` proves `dec (enc r) = some r` from it) -/
+def splitC (c : Char) (s : String) : List String := (s.split c).toList.map (·.copy)
+
+def encPair (a : String × Int) : String := String.intercalate "=" [a.1, toString a.2]
+/-- the asset list as text: `#`, then `,group=amount` per asset -/
+def encAssets (as : List (String × Int)) : String := String.intercalate "," ("#" :: as.map encPair)
 
 def enc (r : Rec) : Val :=
-  "/".intercalate [r.owner, r.token, r.src, r.dst, r.hash, r.creator, encAssets r.assets]
+  String.intercalate "/" [r.owner, r.token, r.src, r.dst, r.hash, r.creator, encAssets r.assets]
+
+def decPair (s : String) : Option (String × Int) :=
+  match splitC '=' s with
+  | [g, n] => n.toInt?.map (fun k => (g, k))
+  | _ => none
 
 def decAssets (s : String) : Option (List (String × Int)) :=
-  if s = "" then some [] else
-  (s.splitOn ",").mapM (fun it => match it.splitOn "=" with
-    | [g, a] => a.toInt?.map (fun n => (g, n))
-    | _ => none)
+  match splitC ',' s with
+  | "#" :: rest => rest.mapM decPair
+  | _ => none
 
 def dec (v : Val) : Option Rec :=
-  match v.splitOn "/" with
+  match splitC '/' v with
   | [o, t, f, d, h, c, as] => (decAssets as).map (fun as => ⟨o, t, f, d, h, c, as⟩)
   | _ => none
 
